@@ -62,9 +62,9 @@ def synthetic(rng):
             text = rng.choice(['a', 'foo', 'x1', '+', '===', 'function', '"str"', '1234', ';', '(', ')', '{', '}'])
             name = None
             if text[0].isalpha() and rng.random() < 0.3:
-                name = rng.choice(['original', 'o', 'aVeryLongOriginalName', text + 'x'])
-                if name == text:
-                    name = None
+                # (also: the fragment's own text recorded as its original name - not a renaming, but the
+                # writer's bookkeeping of names sees it)
+                name = rng.choice(['original', 'o', 'aVeryLongOriginalName', text + 'x', text, text])
             if rng.random() < 0.08:
                 text = rng.choice(['"a\\\nb"', '/* c\n d */', "'x\\\r\ny'"])
                 name = None
